@@ -94,12 +94,19 @@ func FromBytes(data []byte) (*Labels, error) {
 // length or missing bytes.
 var ErrBufferTooShort = errors.New("rfc1035label: buffer too short")
 
+// ErrNameTooLong is returned when a domain name exceeds the limit of RFC 1035
+// Section 2.3.4 (255 octets on the wire, 253 in dotted form).
+var ErrNameTooLong = errors.New("rfc1035label: domain name too long")
+
+// maxNameLen is the maximum length of a domain name in dotted form.
+const maxNameLen = 253
+
 // fromBytes decodes a serialized stream and returns a list of labels
 func labelsFromBytes(buf []byte) ([]string, error) {
 	var (
 		labels          = make([]string, 0)
 		pos, oldPos     int
-		label           string
+		label           []byte
 		handlingPointer bool
 	)
 
@@ -107,18 +114,17 @@ func labelsFromBytes(buf []byte) ([]string, error) {
 		if pos >= len(buf) {
 			// interpret label without trailing zero-length byte as a partial
 			// domain name field as per RFC 4704 Section 4.2
-			if label != "" {
-				labels = append(labels, label)
+			if len(label) != 0 {
+				labels = append(labels, string(label))
 			}
 
 			break
 		}
 		length := int(buf[pos])
 		pos++
-		var chunk string
 		if length == 0 {
-			labels = append(labels, label)
-			label = ""
+			labels = append(labels, string(label))
+			label = label[:0]
 			if handlingPointer {
 				pos = oldPos
 				handlingPointer = false
@@ -139,11 +145,13 @@ func labelsFromBytes(buf []byte) ([]string, error) {
 			if pos+length > len(buf) {
 				return nil, ErrBufferTooShort
 			}
-			chunk = string(buf[pos : pos+length])
-			if label != "" {
-				label += "."
+			if len(label) != 0 {
+				label = append(label, '.')
 			}
-			label += chunk
+			label = append(label, buf[pos:pos+length]...)
+			if len(label) > maxNameLen {
+				return nil, ErrNameTooLong
+			}
 			pos += length
 		}
 	}
